@@ -1,4 +1,5 @@
 import Model.Numscript.Spec
+import Lemmas.Syntax
 /-! C12 — no script, variable map or ledger state can crash the engine.
 Stage 1: at the level of `Spec` (the source-level interpreter the compiler+VM are differentially tied to).
 `Spec.run` is a total Lean function — every recursion in it (`evalSource`/`evalSources`,
@@ -27,5 +28,94 @@ theorem run_is_pure (P Q : Script) (req req' : Request) (store store' : Store) :
 theorem first_error_wins (env : VEnv) (s : Stmt) (ss : List Stmt) (F : Full) (e : Err)
     (h : evalStmt env s F = .error e) : evalStmts env (s :: ss) F = .error e := by
   simp [evalStmts, h]
+
+end C12
+
+/-! ### front end (Syntax) -/
+/-! Stage 1b: the byte string offered as a script.  `Syntax.lex` / `Syntax.parse` model the ANTLR front end as
+driven by `compiler.CompileFull` (tied to it by the accept/reject, token, AST and result differential of
+`checks/syntaxlib.py`); `runText` / `runBytes` = decode, lex, parse, `Spec.run`.  All of it is total by
+construction (structural recursion, explicit fuel bounded by the input length), so the quantifier
+"every byte string" is inside the model.  What stays outside: that the REAL lexer/parser terminate without
+panicking on inputs the differential did not sample. -/
+namespace C12
+open Num Num.Syntax
+
+/-- for EVERY text the outcome is a result or exactly one of the defined error classes -/
+theorem outcome_defined_text (t : String) (req : Request) (store : Store) :
+    (∃ r, runText t req store = .ok r) ∨
+    (∃ e, runText t req store = .error e ∧ e ∈ [Err.compile, .invalidVars, .missingMeta, .resolve, .negativeBalance,
+      .insufficient, .invalidScript, .runtimeOther, .scriptFailed, .metaOverride]) := by
+  cases h : runText t req store with
+  | ok r => exact Or.inl ⟨r, rfl⟩
+  | error e => exact Or.inr ⟨e, rfl, by cases e <;> simp⟩
+
+/-- … and for every BYTE string (ill-formed UTF-8 included), as the Go entry point receives it -/
+theorem runText_total (bs : List UInt8) (req : Request) (store : Store) :
+    (∃ r, runBytes bs req store = .ok r) ∨
+    (∃ e, runBytes bs req store = .error e ∧ e ∈ [Err.compile, .invalidVars, .missingMeta, .resolve, .negativeBalance,
+      .insufficient, .invalidScript, .runtimeOther, .scriptFailed, .metaOverride]) := by
+  cases h : runBytes bs req store with
+  | ok r => exact Or.inl ⟨r, rfl⟩
+  | error e => exact Or.inr ⟨e, rfl, by cases e <;> simp⟩
+
+/-- the lexer makes progress and loses nothing: every token (skipped ones included) is non-empty and the token
+texts, in order, concatenate to the input -/
+theorem lex_progress (cs : List Char) (ts : List Token) (h : lexAll cs = .ok ts) :
+    ts.flatMap (·.text) = cs ∧ ∀ t ∈ ts, t.text ≠ [] :=
+  lexLoop_spec cs.length cs ts h
+
+/-- hence at most as many tokens as characters reach the parser, and their total length is bounded by the input -/
+theorem lex_length_le (s : String) (ts : List Token) (h : lex s = .ok ts) :
+    (ts.map (·.text.length)).sum ≤ s.toList.length ∧ ts.length ≤ s.toList.length := by
+  unfold lex lexChars at h
+  cases ha : lexAll s.toList with
+  | error e => simp [ha] at h
+  | ok all =>
+    simp only [ha] at h
+    injection h with h
+    subst h
+    obtain ⟨hc, hne⟩ := lex_progress _ _ ha
+    have hlen : (all.map (·.text.length)).sum = s.toList.length := by
+      rw [← length_flatMap_text, hc]
+    have h1 := sum_filter_le all (fun t => !t.kind.skipped)
+    refine ⟨by omega, ?_⟩
+    have h2 : ∀ l : List Token, (∀ t ∈ l, t.text ≠ []) → l.length ≤ (l.map (·.text.length)).sum := by
+      intro l
+      induction l with
+      | nil => simp
+      | cons t r ih =>
+        intro hall
+        have ht : t.text ≠ [] := hall t (by simp)
+        have : 0 < t.text.length := List.length_pos_iff.mpr ht
+        have := ih (fun x hx => hall x (List.mem_cons_of_mem _ hx))
+        simp; omega
+    have h3 := h2 (all.filter (fun t => !t.kind.skipped)) (fun t ht => hne t ((List.mem_filter.mp ht).1))
+    omega
+
+/-- maximal munch: the token taken at a position is at least as long as what ANY of the 47 rules matches there,
+and it is what one of the rules matches (or nothing matched: length 0, a lexer error) -/
+theorem lex_maximal_munch (cs : List Char) :
+    (∀ kf ∈ rules, kf.2 cs ≤ (nextToken cs).2) ∧
+    ((nextToken cs).2 = 0 ∨ ∃ kf ∈ rules, nextToken cs = (kf.1, kf.2 cs)) := by
+  refine ⟨best_ge_rule cs rules _, ?_⟩
+  rcases best_is_rule cs rules (.star, 0) with h | h
+  · exact Or.inl (by unfold nextToken; rw [h])
+  · exact Or.inr h
+
+/-- ties go to the earlier rule of the generated lexer: the kind of the token taken is that of the FIRST rule,
+in the lexer's order, that matches the winning length -/
+theorem lex_ties_to_earlier_rule (cs : List Char) (h : (nextToken cs).2 ≠ 0) :
+    ∃ pre kf post, rules = pre ++ kf :: post ∧ nextToken cs = (kf.1, kf.2 cs) ∧ ∀ g ∈ pre, g.2 cs < (nextToken cs).2 :=
+  best_earliest cs rules (.star, 0) (by unfold nextToken at h; simp; omega)
+
+/-! non-vacuity and the tie-breaking order of the generated lexer (`100` NUMBER, `1/2` PORTION, `2/USD` ASSET,
+nested comment skipped, a comment that never closes is not a comment) -/
+example : (lexChars (chars! "100 1/2 2/USD")).toOption.map (·.map (·.kind)) = some [.number, .portion, .asset] := by decide
+example : (lexChars (chars! "/* a /* b */ c */fail")).toOption.map (·.map (·.kind)) = some [.kFail] := by decide
+example : (lexChars (chars! "/* a /* b */fail")).toOption.map (·.map (·.kind)) = some [.kFail] := by decide
+example : (lexChars (chars! "fail #")).toOption = none := by decide
+example : (frontChars (chars! "print 1 + 2\nfail\n")).isSome = true := by decide
+example : (frontChars (chars! "print 1 + 2 fail")).isSome = false := by decide
 
 end C12
